@@ -2,7 +2,8 @@
 from ..facts import AnchorMissing, callee_def, op_place, op_const
 from ..util import (SUBR, TEXTR, RTRAIT, ends, is_callee, field_accesses, site, fn_key,
                     consumer_of_ref, callee_method, dominated_by_true_edge, require,
-                    closure_bodies_created_in, transitive_closures, edge_is_true, src_field)
+                    closure_bodies_created_in, transitive_closures, edge_is_true, src_field,
+                    edges_where, unreachable_without_edges)
 
 EXPLANATION = (
     "Static decision of where the footnote state lives and who touches it: the per-render link "
@@ -190,7 +191,8 @@ def rule_d(ctx):
         ctx.check(callers == want, "C08-D", "trait-%s:only-from-wrapper" % m, tgt.span, tgt.id,
                   "callers of SubRenderer's %s: %s" % (m, callers))
         # and also no unresolved trait-level call `Renderer::start_link`
-        unres = F.call_sites(lambda cd, t: ends(cd, "render::Renderer::" + m))
+        unres = F.call_sites(lambda cd, t: (t.get("callee") or {}).get("resolved") is None
+                             and (t.get("callee") or {}).get("def") == "render::Renderer::" + m)
         ctx.check(not unres, "C08-D", "trait-%s:no-generic-call" % m, "", "",
                   "unresolved Renderer::%s calls: %s" % (m, [(b.id, t["span"]) for b, _, t in unres]))
     # all callers of the wrappers are inside the tree walk
@@ -291,15 +293,15 @@ def rule_g(ctx):
                     found += 1
                     # control dependent on the result of Iterator::any
                     okc = False
-                    for (a, s) in cb.cdeps_transitive(bb):
-                        truth, src = edge_is_true(cb, a, s)
-                        if src and src[0] == "call" and callee_method(src[1]) == "any" and truth is True:
-                            # the predicate closure negates is_shallow_empty
-                            preds = [c for _b, _i, c, _o, _f in closure_bodies_created_in(F, cb)]
-                            for pc in preds:
-                                neg, psrc = pc.trace_value({"c": {"l": 0, "p": []}})
-                                if psrc[0] == "call" and ends(callee_def(psrc[1]), "RenderNode::is_shallow_empty") and neg:
-                                    okc = True
+                    cut = edges_where(cb, lambda truth, src, a, s: truth is True and src and src[0] == "call"
+                                      and callee_method(src[1]) == "any")
+                    if unreachable_without_edges(cb, bb, cut):
+                        # the predicate closure negates is_shallow_empty
+                        preds = [c for _b, _i, c, _o, _f in closure_bodies_created_in(F, cb)]
+                        for pc in preds:
+                            neg, psrc = pc.trace_value({"c": {"l": 0, "p": []}})
+                            if psrc[0] == "call" and ends(callee_def(psrc[1]), "RenderNode::is_shallow_empty") and neg:
+                                okc = True
                     ctx.check(okc, "C08-G", "Link-node-only-if-some-child-not-shallow-empty", st["span"], fn_key(cb),
                               "Link construction must be guarded by any(|c| !c.is_shallow_empty())")
     ctx.floor("C08-G", "Link node constructions", found, 1)
